@@ -61,7 +61,7 @@ theorem len_window_fails (pn A : Int) (h : HugeGap A pn) : ¬ 2 * (pn - A) < win
 
 /-- (b) general form: any receiver whose expected number `L+1` is within half a window of `pn`
 (`−hwin < pn − (L+1) ≤ hwin`) decodes the truncated number to exactly `pn`. -/
-theorem decode_exact (L pn n : Int) (hL : -1 ≤ L) (hpn0 : 0 ≤ pn) (hpn : pn ≤ maxPacketNumber)
+theorem decode_exact (L pn n : Int) (hpn0 : 0 ≤ pn) (hpn : pn ≤ maxPacketNumber)
     (hn : n = 1 ∨ n = 2 ∨ n = 3 ∨ n = 4)
     (hlo : (L + 1) - win n / 2 < pn) (hhi : pn ≤ (L + 1) + win n / 2) :
     decodePN L (pn % win n) n = pn := by
@@ -77,7 +77,7 @@ theorem decode_sender_receiver (A L pn : Int) (hs : InSpace A pn) (hAL : A ≤ L
   obtain ⟨hA, hApn, hmax⟩ := hs
   have hw := len_window pn A hg
   have hr := len_range pn A
-  apply decode_exact L pn _ (by omega) (by omega) hmax hr
+  apply decode_exact L pn _ (by omega) hmax hr
   · rcases hr with h | h | h | h <;> rw [h] at hw ⊢ <;> simp [win] at hw ⊢ <;> omega
   · rcases hr with h | h | h | h <;> rw [h] at hw ⊢ <;> simp [win] at hw ⊢ <;> omega
 
@@ -96,7 +96,7 @@ theorem append_length (pn A : Int) : ((appendPN pn A).length : Int) = pnLen pn A
   unfold appendPN; simp only []
   rcases len_range pn A with h | h | h | h <;> simp [h]
 
-theorem append_value (pn A : Int) (hpn : 0 ≤ pn) :
+theorem append_value (pn A : Int) :
     beValue (appendPN pn A) = pn % win (pnLen pn A) := by
   unfold appendPN; simp only []
   rcases len_range pn A with h | h | h | h <;> simp [h, beValue, win] <;> omega
@@ -109,7 +109,7 @@ theorem append_bytes (pn A : Int) : ∀ b ∈ appendPN pn A, 0 ≤ b ∧ b < 256
 theorem wire_roundtrip (A L pn : Int) (hs : InSpace A pn) (hAL : A ≤ L) (hLpn : L < pn)
     (hg : ¬ HugeGap A pn) :
     decodePN L (beValue (appendPN pn A)) ((appendPN pn A).length : Int) = pn := by
-  rw [append_length, append_value pn A (by unfold InSpace at hs; omega)]
+  rw [append_length, append_value pn A]
   exact decode_sender_receiver A L pn hs hAL hLpn hg
 
 /-! ### The property: partial (proved) and full (refuted) -/
